@@ -46,6 +46,9 @@ type DBRow struct {
 	Name         string
 	Copies       int
 	FirstDiffers bool
+	// OmitAgg: the stored declaration has NO filter_agg (the dashboard stores what the user
+	// sent; ValidateFix, which turns an omitted filter_agg into "or", runs on the file only)
+	OmitAgg bool `json:",omitempty"`
 }
 
 // TaskH is one running task with its ids.
@@ -318,7 +321,11 @@ func (w *World) moveToDatabase() error {
 		if found == nil {
 			return fmt.Errorf("DBRows: no integration %q", row.Name)
 		}
-		last, err := json.Marshal(found)
+		stored := *found
+		if row.OmitAgg {
+			stored.FilterAGG = ""
+		}
+		last, err := json.Marshal(stored)
 		if err != nil {
 			return err
 		}
